@@ -1,16 +1,27 @@
-import Marwood.Lemmas.NumScm
+import Marwood.Lemmas.NumAccuracy
 /-!
 # C08 — exact arithmetic is exact; inexactness is never silently dropped
 
 Property theorems only.  Model: `Marwood.Arith` (number.rs / builtin/number.rs after the fix
-commits 301e76d, 5bfb138, fcf9000); specification: `Marwood.NumSpec` (values in ℚ).
+commits 301e76d, 5bfb138, fcf9000, 7762e0a); specification: `Marwood.NumSpec` (values in ℚ).
 
-* T08.1 an exact answer is never wrong — `+ − * /`, every representation pair.
+* T08.1 an exact answer is never wrong — `+ − * /`, every representation pair; the unary operations
+  and `expt`.
 * T08.3 `quotient remainder modulo` on exact integers are total for a non-zero divisor and equal
   `Int.tdiv`, `Int.tmod`, `Int.fmod`, in every representation (direct API and procedures).
-* T08.2 / T08.4 (an inexact answer only when the true result is not representable; representation
-  independence) are FALSE for the pinned code: the full statements are kept below as `Prop`s, their
-  negations are proved at concrete witnesses, and the `_partial` versions carry explicit guards.
+* T08.2 (an inexact answer only when the true result is not representable) and T08.4
+  (representation independence) hold at FULL strength, no representation guard, for
+  `abs floor ceiling truncate numerator denominator expt` (expt after fix 7762e0a; the pre-fix
+  function is kept as `Arith.Pinned.pow` with its witness `pinned_expt_rational`).
+* The three facts about the rounding function `Fl.rnd` (monotone, exact on representable values,
+  relative error ≤ 2⁻⁵³ in the normal range) are proved about the pure implementation; the inexact
+  answers of `expt` are thereby within the property's error bound (`T08_2_expt_accuracy`).
+* T08.2 / T08.4 are FALSE for `+ − * /` on the repaired tree as well: the float fall-backs of the
+  binary operators are pinned by the project's own unit tests (`number::tests::{add,sub,mul,div}`
+  assert the `Float` discriminant of e.g. `2147483648 + 50/1`, `BigInt(100) + 1/2`,
+  `2147483647/1 + 1/1`, `2147483648 / BigInt(2)`), so they stay known findings: the full statements
+  are kept below as `Prop`s, their negations are proved at concrete witnesses, and the `_partial`
+  versions carry explicit guards.
 -/
 namespace Marwood.Proofs.C08
 open Marwood Marwood.Arith Marwood.NumSpec
@@ -125,6 +136,144 @@ theorem expt_exact_correct (a : Num) (ha : a.WF = true) (e : Nat) {r : Num} (h :
     (he : isExact r = true) : ∃ x, val a = some x ∧ val r = some (x ^ e) :=
   pow_spec a ha e h he
 
+/-! ### T08.2 / T08.4 at full strength — abs floor ceiling truncate numerator denominator expt
+
+No representation guard: the operand is any well-formed exact number (`fix`, `big`, `rat`). -/
+
+/-- T08.2 (expt), full strength: `(expt a e)` is answered inexactly only when the exact power is
+    not representable (not an integer and not a reduced ratio within i32). -/
+theorem T08_2_expt (a : Num) (ha : a.WF = true) (e : Nat) {r : Num} (h : pow a e = some r)
+    (he : isExact r = false) : ∃ x, val a = some x ∧ representable (x ^ e) = false :=
+  pow_inexact_spec a ha e h he
+
+/-- T08.1 + T08.2 (expt) in one statement: the answer is exact precisely when the exact power is
+    representable. -/
+theorem expt_exact_iff_representable (a : Num) (ha : a.WF = true) (e : Nat) {r : Num} {x : Rat}
+    (hx : val a = some x) (h : pow a e = some r) : isExact r = representable (x ^ e) :=
+  pow_exact_iff a ha e hx h
+
+/-- T08.4 (expt), full strength: the same value carried by any two representations gives answers
+    of equal exactness and equal value. -/
+theorem T08_4_expt (a a' : Num) (ha : a.WF = true) (ha' : a'.WF = true) (hv : val a = val a')
+    (e : Nat) {r r' : Num} (h : pow a e = some r) (h' : pow a' e = some r') :
+    isExact r = isExact r' ∧ val r = val r' :=
+  pow_indep a a' ha ha' hv e h h'
+
+/-- T08.4 for the procedure `(expt x e)`, full strength, base *and* exponent in any
+    representation: the same error class, or answers of equal exactness and equal value. -/
+theorem T08_4_scm_expt (x x' e e' : Num) (hx : x.WF = true) (hx' : x'.WF = true)
+    (he : e.WF = true) (he' : e'.WF = true) (hee : isExact e = true) (hee' : isExact e' = true)
+    (hvx : val x = val x') (hve : val e = val e') {o o' : Outcome Num}
+    (h : scmExpt [x, e] = some o) (h' : scmExpt [x', e'] = some o') : SameAnswer o o' :=
+  scmExpt_indep x x' e e' hx hx' he he' hee hee' hvx hve h h'
+
+/-- the witness of the former finding C08-expt-rational, before and after fix 7762e0a:
+    `(expt <rational 65536/1> 2)` was `4294967296.0`, and is `4294967296`. -/
+theorem pinned_expt_rational :
+    Pinned.pow (.rat 65536 1) 2 = some (.flo ⟨0x41f0000000000000⟩) ∧
+    pow (.rat 65536 1) 2 = some (.fix 4294967296) ∧ pow (.fix 65536) 2 = some (.fix 4294967296) := by
+  decide +kernel
+
+/-- T08.2 (abs), full strength: `abs` is answered inexactly only when the absolute value is not
+    representable (`-2147483648/d`, `d > 1`). -/
+theorem T08_2_abs (a : Num) (ha : a.WF = true) {r : Num} (h : abs a = some r)
+    (he : isExact r = false) : ∃ x, val a = some x ∧ representable (absR x) = false :=
+  abs_inexact_spec a ha h he
+
+/-- T08.2 (floor ceiling truncate numerator denominator), full strength: never inexact. -/
+theorem T08_2_integer_valued (a : Num) (hea : isExact a = true) {r : Num}
+    (h : floor a = some r ∨ ceil a = some r ∨ truncate a = some r ∨ numerator a = some r ∨
+      denominator a = some r) : isExact r = true := by
+  rcases h with h | h | h | h | h
+  · exact floor_exact h hea
+  · exact ceil_exact h hea
+  · exact truncate_exact h hea
+  · exact numerator_exact h hea
+  · exact denominator_exact h
+
+/-- T08.4 (abs floor ceiling truncate), full strength: the answers to the same value in any two
+    representations have equal exactness and equal value. -/
+theorem T08_4_unary (a a' : Num) (ha : a.WF = true) (ha' : a'.WF = true) (hea : isExact a = true)
+    (hea' : isExact a' = true) (hv : val a = val a') :
+    (∀ r r', abs a = some r → abs a' = some r' → isExact r = isExact r' ∧ val r = val r') ∧
+    (∀ r r', floor a = some r → floor a' = some r' → isExact r = isExact r' ∧ val r = val r') ∧
+    (∀ r r', ceil a = some r → ceil a' = some r' → isExact r = isExact r' ∧ val r = val r') ∧
+    (∀ r r', truncate a = some r → truncate a' = some r' →
+      isExact r = isExact r' ∧ val r = val r') :=
+  ⟨fun _ _ h h' => abs_indep a a' ha ha' hea hea' hv h h',
+   fun _ _ h h' => floor_indep a a' ha ha' hea hea' hv h h',
+   fun _ _ h h' => ceil_indep a a' ha ha' hea hea' hv h h',
+   fun _ _ h h' => truncate_indep a a' ha ha' hea hea' hv h h'⟩
+
+/-- T08.4 (numerator denominator), full strength. -/
+theorem T08_4_numerator_denominator (a a' : Num) (ha : a.WF = true) (ha' : a'.WF = true)
+    (hea : isExact a = true) (hea' : isExact a' = true) (hv : val a = val a') {r r' s s' : Num}
+    (h1 : numerator a = some r) (h1' : numerator a' = some r') (h2 : denominator a = some s)
+    (h2' : denominator a' = some s') :
+    isExact r = true ∧ isExact r' = true ∧ val r = val r' ∧
+    isExact s = true ∧ isExact s' = true ∧ val s = val s' :=
+  numer_denom_indep a a' ha ha' hea hea' hv h1 h1' h2 h2'
+
+/-! ### the rounding function (DESIGN §3.2): proved, not assumed
+
+Every inexact answer of the model is `Fl.rnd` of an exact rational (directly for `expt`, through
+`Fl.ofInt`, `Fl.ofRatio` and the four IEEE operations for the fall-backs of `+ − * /`).  The three
+facts the design promised about `rnd` are theorems about the pure implementation in
+`Num/F64.lean` (`Lemmas/NumRndCore.lean`, `NumRndBits.lean`, `NumRnd.lean`); no `RndLaws`
+hypothesis remains. -/
+
+/-- rounding is monotone (results are never NaN, so they are ordered in ℚ ∪ {−∞, +∞}) -/
+theorem rnd_monotone {q q' : Rat} (h : q ≤ q') :
+    ∃ a b, ext (.flo (Fl.rnd q)) = some a ∧ ext (.flo (Fl.rnd q')) = some b ∧ Ext.le a b = true :=
+  Fl.rnd_mono h
+
+/-- rounding is exact on representable values: the value of a finite double rounds to itself -/
+theorem rnd_exact_on_doubles (f : F64) (q : Rat) (h : Fl.toRat? f = some q) :
+    Fl.toRat? (Fl.rnd q) = some q :=
+  Fl.rnd_exact f q h
+
+/-- in the normal range (2⁻¹⁰²² ≤ |q| < 2¹⁰²³) the rounded value is finite and within 2⁻⁵³ relative -/
+theorem rnd_relative_error (q : Rat) (hlo : (2 : Rat) ^ (-1022 : Int) ≤ |q|)
+    (hhi : |q| < 2 ^ (1023 : Int)) :
+    ∃ v, Fl.toRat? (Fl.rnd q) = some v ∧ |v - q| ≤ 2 ^ (-53 : Int) * |q| :=
+  Fl.rnd_relerr q hlo hhi
+
+/-- T08.2 (expt), second conjunct: an inexact power is the correctly rounded exact power — finite
+    and within 2⁻⁵³ (a fortiori 2⁻⁵⁰) relative when the exact power is in the doubles' normal range. -/
+theorem T08_2_expt_accuracy (a : Num) (ha : a.WF = true) (e : Nat) {r : Num} (h : pow a e = some r)
+    (he : isExact r = false) {x : Rat} (hx : val a = some x)
+    (hlo : (2 : Rat) ^ (-1022 : Int) ≤ |x ^ e|) (hhi : |x ^ e| < 2 ^ (1023 : Int)) :
+    ∃ v, val r = some v ∧ |v - x ^ e| ≤ 2 ^ (-53 : Int) * |x ^ e| :=
+  pow_inexact_accurate a ha e h he hx hlo hhi
+
+/-- T08.2 (abs), second conjunct: the only inexact answers of `abs` (to `-2147483648/d`, `d > 1`)
+    are finite and within 2⁻⁵³ relative — no range hypothesis, the value lies in [1, 2³¹]. -/
+theorem T08_2_abs_accuracy (a : Num) (ha : a.WF = true) {r : Num} (h : abs a = some r)
+    (he : isExact r = false) :
+    ∃ x v, val a = some x ∧ val r = some v ∧ |v - absR x| ≤ 2 ^ (-53 : Int) * absR x :=
+  abs_inexact_accurate a ha h he
+
+/-- T08.2 (+), second conjunct — holds although the first conjunct does not: whenever a sum of
+    exact operands (magnitudes below 2¹⁰⁰⁰, not both below 2⁻¹⁰²²) is answered inexactly, the
+    answer is finite and within 2⁻⁵⁰·max(|x|, |y|, |x+y|) of the exact sum.  (Both operands are
+    converted by `rnd`, the double sum is `rnd` of their exact sum: three roundings.) -/
+theorem T08_2_add_accuracy (a b : Num) (ha : a.WF = true) (hb : b.WF = true)
+    (hea : isExact a = true) (heb : isExact b = true) {x y : Rat} (hx : val a = some x)
+    (hy : val b = some y) (hmx : |x| < 2 ^ (1000 : Int)) (hmy : |y| < 2 ^ (1000 : Int))
+    (hM : (2 : Rat) ^ (-1022 : Int) ≤ max |x| (max |y| |x + y|))
+    (he : isExact (add a b) = false) :
+    ∃ v, val (add a b) = some v ∧ |v - (x + y)| ≤ 2 ^ (-50 : Int) * max |x| (max |y| |x + y|) :=
+  add_inexact_accurate a b ha hb hea heb hx hy hmx hmy hM he
+
+/-- T08.2 (−), second conjunct. -/
+theorem T08_2_sub_accuracy (a b : Num) (ha : a.WF = true) (hb : b.WF = true)
+    (hea : isExact a = true) (heb : isExact b = true) {x y : Rat} (hx : val a = some x)
+    (hy : val b = some y) (hmx : |x| < 2 ^ (1000 : Int)) (hmy : |y| < 2 ^ (1000 : Int))
+    (hM : (2 : Rat) ^ (-1022 : Int) ≤ max |x| (max |y| |x - y|))
+    (he : isExact (sub a b) = false) :
+    ∃ v, val (sub a b) = some v ∧ |v - (x - y)| ≤ 2 ^ (-50 : Int) * max |x| (max |y| |x - y|) :=
+  sub_inexact_accurate a b ha hb hea heb hx hy hmx hmy hM he
+
 /-! ### T08.5 — variadic `+ * −` -/
 
 /-- T08.5: the variadic procedures are folds of the binary operations, taken from the last
@@ -173,13 +322,16 @@ theorem divide_never_panics (args : List Num) (s : String) : scmDivide args ≠ 
 theorem div_total (a b : Num) (hz : isZero b = false) : ∃ x, div a b = .ok x :=
   div_no_panic a b hz
 
-/-! ### T08.2 / T08.4 — FALSE at full strength on the pinned tree
+/-! ### T08.2 / T08.4 for `+ − * /` — FALSE at full strength
 
 The property demands that an inexact answer is given only when the exact result is not
 representable, and that the answer does not depend on the representation of an operand.  Both fail
-(known findings C08-wide-int-with-rational, C08-rational-overflow, C08-div-wide,
-C08-expt-rational, C08-variadic-contagion).  The full statements stay visible as `Prop`s, their
-negations are proved at concrete witnesses, the `_partial` theorems carry explicit guards. -/
+for the binary operators (known findings C08-wide-int-with-rational, C08-rational-overflow,
+C08-div-wide, and their consequence C08-variadic-contagion).  They cannot be repaired without
+editing the project's suite: `number::tests::{add, sub, mul, div}` assert the `Float` answer
+(value *and* enum discriminant) for members of each class.  The full statements stay visible as
+`Prop`s, their negations are proved at concrete witnesses, the `_partial` theorems carry explicit
+guards. -/
 
 /-- T08.2 (first conjunct), full strength, for a binary operation -/
 def InexactOnlyWhenNeeded (op : Num → Num → Num) (spec : Rat → Rat → Rat) : Prop :=
@@ -302,6 +454,25 @@ example : Arith.abs (.rat (-2147483648) 1) = some (.fix 2147483648) := by decide
 example : ceil (.rat 2147483647 2) = some (.rat 1073741824 1) := by decide
 example : pow (.fix 3037000500) 2 = some (.big 9223372037000250000) := by decide
 example : scmPlus [.fix 1, .rat 1 2, .fix 3] = .ok (.rat 9 2) := by decide
+-- the full-strength expt theorems speak about both kinds of answer
+example : pow (.rat 1 2) 40 = some (.flo ⟨0x3d70000000000000⟩) := by decide +kernel
+example : pow (.rat (-46341) 1) 2 = some (.fix 2147488281) := by decide
+example : scmExpt [.rat 65536 1, .rat 2 1] = some (.ok (.fix 4294967296)) := by decide
+example : Arith.abs (.rat (-2147483648) 3) = some (.flo ⟨0x41c5555555555555⟩) := by decide +kernel
+-- the hypotheses of `T08_2_expt_accuracy` are satisfiable: `(expt 2147483647/2 2)` is inexact and its
+-- exact value lies in the doubles' normal range
+example : ∃ r, pow (.rat 2147483647 2) 2 = some r ∧ isExact r = false ∧
+    (2 : Rat) ^ (-1022 : Int) ≤ |((2147483647 : Rat) / 2) ^ 2| ∧
+    |((2147483647 : Rat) / 2) ^ 2| < 2 ^ (1023 : Int) := by
+  refine ⟨_, rfl, rfl, ?_, ?_⟩
+  · calc (2 : Rat) ^ (-1022 : Int) ≤ 2 ^ (0 : Int) := Fl.two_zpow_mono (by norm_num)
+      _ ≤ _ := by norm_num
+  · calc |((2147483647 : Rat) / 2) ^ 2| < 2 ^ (62 : Int) := by norm_num
+      _ ≤ _ := Fl.two_zpow_mono (by norm_num)
+-- the hypotheses of `T08_2_add_accuracy` are satisfiable: the witness of the finding itself
+example : isExact (add (.rat 1 2) (.rat 2147483647 2)) = false := by decide +kernel
+-- the rounding facts speak about concrete doubles: 1/3 rounds to 0x3fd5555555555555
+example : Fl.rnd (1 / 3) = ⟨0x3fd5555555555555⟩ := by decide +kernel
 -- the guards of the `_partial` theorems are satisfiable on the boundary
 example : div (.fix 1) (.fix (-2147483648)) = .ok (.flo ⟨0xbe00000000000000⟩) := by decide +kernel
 
